@@ -12,7 +12,8 @@ from props import register
 def pred_game(rng, kind=None, stratum=None, n=None, maxsize=8):
     kind = kind or rng.choice(KINDS)
     beta, kappa, tau = gen_config(rng)
-    stratum = stratum or rng.choice(["typical", "typical", "wide", "corners", "mismatch", "identical", "equalsize", "tiny-sigma", "equal-ordinal", "near-identical", "zero-sigma", "newcomers", "crushing"])
+    stratum = stratum or rng.choice(["typical", "typical", "wide", "corners", "mismatch", "identical", "identical", "equalsize", "tiny-sigma", "equal-ordinal",
+                                     "near-identical", "near-identical", "zero-sigma", "newcomers", "crushing"])
     if stratum == "crushing":
         # large teams of settled players at opposite ends of the range: some pairwise z beyond 38.6, where Phi is exactly 0.0 / 1.0 in
         # doubles, next to pairs with a real contest
@@ -128,6 +129,8 @@ def impl_pred(g, cls=None, probe=None):
                         t[j] = t[i]
                         PRED_STATS["member_listed_twice"] = PRED_STATS.get("member_listed_twice", 0) + 1
                         break
+    if cls is None:
+        teams = core.with_user_subclass(teams, h)
     # ids are labels: every eleventh game all first players carry one id (clones of a template; a guest account)
     if h % 11 == 3:
         PRED_STATS["shared_ids"] = PRED_STATS.get("shared_ids", 0) + 1
@@ -571,6 +574,12 @@ def c11(res):
         res.case(g); describe(res, g)
         c11_one(res, g)
         games.append(g)
+    # probabilities that are equal as doubles although the inputs differ by a few ulps (and the other way round): the ranks must follow
+    # the returned probabilities, not some intermediate quantity
+    for k in range(size(res, 600, 3000)):
+        g = pred_game(rng, kind=KINDS[k % 5], stratum="near-identical")
+        res.case(g); res.count("near_identical_games")
+        c11_one(res, g)
     for g in games[:: max(1, len(games) // 150)]:
         inplace_sequence(res, g, rng, "C11")
         reconfigure_sequence(res, g, rng, "C11")
